@@ -108,3 +108,11 @@ Definition items_sorted (m : items) : Prop := StronglySorted path_lt (map fst m)
 (** insertion of a list of (path, item) pairs, in list order *)
 Definition insert_all (l : list (list string * (N * type_ir))) (acc : items) : items :=
   fold_left (fun m e => items_insert m (fst e) (snd e)) l acc.
+
+(** ** restriction (C17, second half).  scale-info's [retain] keeps the entries reachable from
+    a set of ids and renumbers them densely.  Modelled in two steps: a renumbering [pi] that
+    moves the retained entries to the front (in their new order) - the id map [mu] of the
+    retained entries is [pi] - followed by cutting the registry after the first [k] entries. *)
+Definition restrict (pi : N -> N) (k : nat) (r : registry) : registry := firstn k (renumber pi r).
+(** what is cut off *)
+Definition dropped (pi : N -> N) (k : nat) (r : registry) : registry := skipn k (renumber pi r).
